@@ -70,7 +70,7 @@ L, FI, Q = "src/lexer.rs", "src/field.rs", "src/query.rs"
 M("C11-R1-field-dirname", "C11", [(FI, '"dir" | "directory" | "dirname" => Ok(Field::Directory),', '"dir" | "directory" => Ok(Field::Directory),')], ["column_missing_dirname"])
 M("C11-R1-function-pow", "C11", [(F, '"power" | "pow" => Ok(Function::Power),', '"power" => Ok(Function::Power),')], ["function_missing_pow"])
 M("C11-R1-ext-maps-name", "C11", [(FI, '"ext" | "extension" => Ok(Field::Extension),', '"extension" => Ok(Field::Extension),\n            "ext" => Ok(Field::Name),')], ["column_wrong_ext"])
-M("C11-R1-format-case", "C11", [(Q, "let s = s.to_lowercase();\n\n        match s.as_str() {", "let s = s.to_string();\n\n        match s.as_str() {")], ["format_case"])
+M("C11-R1-format-case", "C11", [(Q, "let s = s.to_lowercase();\n\n        match s.as_str() {", "let s = s.to_string();\n\n        match s.as_str() {")], ["format_"])
 M("C11-R1-arith-mod", "C11", [(O, '"%" | "mod" => Some(ArithmeticOp::Modulo),', '"%" => Some(ArithmeticOp::Modulo),')], ["arithmetic_missing_mod"])
 M("C11-R2-depth-sets-min", "C11", [(P, 'if s == "mindepth" {\n                                mode = RootParsingMode::MinDepth;\n                            } else if s == "maxdepth" || s == "depth" {', 'if s == "mindepth" || s == "depth" {\n                                mode = RootParsingMode::MinDepth;\n                            } else if s == "maxdepth" {')], ["root-option-effect_depth"])
 M("C11-R2-sym-sets-archives", "C11", [(P, "symlinks = true;", "archives = true;")], ["root-option-effect_sym"])
